@@ -25,3 +25,15 @@ fn huge_lazily_repeated_list_collected() {
     let r = env.render_str("{{ ([1] * 4611686018427387904)|list|length }}", context! {});
     assert!(r.is_err());
 }
+
+#[test]
+fn statements_leave_no_operand_behind() {
+    // fixes e3f8619 (from-import) and 361598c (do): a leaked operand replaced the 'a' of the enclosing `~`
+    let mut env = Environment::new();
+    env.add_template("m", "{% macro f() %}F{% endmacro %}").unwrap();
+    let want = env.render_str("{% for x in [[[]]] recursive %}<{{ 'a' ~ loop(x) }}>{% endfor %}", context! {}).unwrap();
+    for stmt in ["{% do range(1) %}", "{% from 'm' import f %}"] {
+        let t = format!("{{% for x in [[[]]] recursive %}}{stmt}<{{{{ 'a' ~ loop(x) }}}}>{{% endfor %}}");
+        assert_eq!(env.render_str(&t, context! {}).unwrap(), want, "{stmt}");
+    }
+}
